@@ -841,6 +841,37 @@ theorem pagerPlan_nodup (sharded : Nat → Bool) (coord : Option (Nat × Option 
     · apply hlbc
       exact hlb.sublist (List.filter_sublist.map _)
 
+/-- The same from the weaker hypothesis that the load-balancing plan has no two entries that are the same TARGET
+(what `lbPlan_nodup` below gives for any policy satisfying `PolicyDistinct`, e.g. the single-target policy). -/
+theorem pagerPlan_nodup_of_targets (sharded : Nat → Bool) (coord : Option (Nat × Option Nat)) (lbPlan : List PlanTarget)
+    (hlb : (lbPlan.map (canonTarget sharded)).Nodup)
+    (hcoord : ∀ cn cs, coord = some (cn, cs) → (cs = none ↔ sharded cn = false)) :
+    ((pagerPlan coord lbPlan).map (canonTarget sharded)).Nodup := by
+  cases coord with
+  | none => exact hlb
+  | some c =>
+    obtain ⟨cn, cs⟩ := c
+    have hc := hcoord cn cs rfl
+    simp only [pagerPlan, List.map_cons, List.nodup_cons]
+    refine ⟨?_, hlb.sublist (List.filter_sublist.map _)⟩
+    intro hmem
+    obtain ⟨t, ht, heq⟩ := List.mem_map.mp hmem
+    have hf := (List.mem_filter.mp ht).2
+    have hn : t.1 = cn := by
+      have := congrArg Prod.fst heq
+      simpa [canonTarget] using this
+    cases cs with
+    | none => simp [hn] at hf
+    | some ls =>
+      have hsh : sharded cn = true := by
+        cases h : sharded cn with
+        | true => rfl
+        | false => have := hc.mpr h; cases this
+      have hs : t.2 = ls := by
+        have := congrArg Prod.snd heq
+        simpa [canonTarget, hn, hsh] using this
+      simp [hn, hs] at hf
+
 /-- **No two executions of one page fetch use the same target**, with no assumption on the pager's plan: only the
 load-balancing plan must name every node at most once (C05). -/
 theorem distinct_targets_paged (sharded : Nat → Bool) (coord : Option (Nat × Option Nat)) (lbPlan : List PlanTarget)
@@ -870,6 +901,182 @@ example : pagerPlan (some (1, none)) [(1, 0), (2, 0), (3, 0)] = [(1, 2137), (2, 
 -- sharded coordinator (2, 1): only the equal target is dropped, another shard of the same node is a different target
 example : pagerPlan (some (2, some 1)) [(1, 0), (2, 1), (3, 0)] = [(2, 1), (1, 0), (3, 0)] := by decide
 example : pagerPlan (some (2, some 1)) [(1, 0), (2, 0), (3, 0)] = [(2, 1), (1, 0), (2, 0), (3, 0)] := by decide
+
+/-! #### `load_balancing::Plan` over an ARBITRARY policy: which hypothesis on the policy makes its plan duplicate-free
+
+`plan.Nodup` is not a fact about every plan: `Plan` (plan.rs) only skips fallback entries EQUAL to the picked one
+(node and `Option<Shard>`).  The hypothesis a policy must satisfy is `PolicyDistinct`; it holds for the single-target
+policy (below) and for the default policy (C05 `plan_nodup`: every node at most once, see `nodup_targets_of_nodes`). -/
+
+/-- Two entries a policy yields are the same target: same node, and the node is unsharded, or one of them names no
+shard (it may be sent to ANY shard of the node), or they name the same shard. -/
+def rawSame (sharded : Nat → Bool) (a b : RawTarget) : Prop :=
+  a.1 = b.1 ∧ (sharded a.1 = false ∨ a.2 = none ∨ b.2 = none ∨ a.2 = b.2)
+
+/-- **The hypothesis on a load-balancing policy**: `fallback` names no two entries that are the same target, and no
+entry that is the same target as the picked one — except exact copies of the picked entry, which `Plan` skips. -/
+structure PolicyDistinct (sharded : Nat → Bool) (pick : Option RawTarget) (fallback : List RawTarget) : Prop where
+  fallback_distinct : fallback.Pairwise (fun a b => ¬ rawSame sharded a b)
+  pick_distinct : ∀ p, pick = some p → ∀ f ∈ fallback, f ≠ p → ¬ rawSame sharded p f
+
+theorem lbRaw_pairwise (sharded : Nat → Bool) (pick : Option RawTarget) (fallback : List RawTarget)
+    (h : PolicyDistinct sharded pick fallback) :
+    (lbRaw pick fallback).Pairwise (fun a b => ¬ rawSame sharded a b) := by
+  cases pick with
+  | some p =>
+    simp only [lbRaw, List.pairwise_cons]
+    refine ⟨?_, h.fallback_distinct.sublist List.filter_sublist⟩
+    intro f hf
+    have hm := List.mem_filter.mp hf
+    exact h.pick_distinct p rfl f hm.1 (by simpa using hm.2)
+  | none =>
+    cases fallback with
+    | nil => simp [lbRaw]
+    | cons f rest =>
+      have hd := h.fallback_distinct
+      simp only [List.pairwise_cons] at hd
+      simp only [lbRaw, List.pairwise_cons]
+      refine ⟨?_, hd.2.sublist List.filter_sublist⟩
+      intro x hx
+      exact hd.1 x (List.mem_filter.mp hx).1
+
+private theorem mem_resolveAll (raw : List RawTarget) (ρ : List Nat) (x : Nat × Nat) (h : x ∈ resolveAll raw ρ) :
+    ∃ e ∈ raw, e.1 = x.1 ∧ ∀ s, e.2 = some s → s = x.2 := by
+  induction raw generalizing ρ with
+  | nil => simp [resolveAll] at h
+  | cons e rest ih =>
+    obtain ⟨n, os⟩ := e
+    cases os with
+    | some s =>
+      simp only [resolveAll, List.mem_cons] at h
+      rcases h with h | h
+      · exact ⟨(n, some s), by simp, by simp [h], by intro s' hs'; simp at hs'; simp [h, ← hs']⟩
+      · obtain ⟨e, he, h1, h2⟩ := ih ρ h
+        exact ⟨e, List.mem_cons_of_mem _ he, h1, h2⟩
+    | none =>
+      cases ρ with
+      | nil =>
+        simp only [resolveAll, List.mem_cons] at h
+        rcases h with h | h
+        · exact ⟨(n, none), by simp, by simp [h], by intro s' hs'; simp at hs'⟩
+        · obtain ⟨e, he, h1, h2⟩ := ih [] h
+          exact ⟨e, List.mem_cons_of_mem _ he, h1, h2⟩
+      | cons r ρ' =>
+        simp only [resolveAll, List.mem_cons] at h
+        rcases h with h | h
+        · exact ⟨(n, none), by simp, by simp [h], by intro s' hs'; simp at hs'⟩
+        · obtain ⟨e, he, h1, h2⟩ := ih ρ' h
+          exact ⟨e, List.mem_cons_of_mem _ he, h1, h2⟩
+
+private theorem resolved_head_fresh (sharded : Nat → Bool) (n : Nat) (os : Option Nat) (sh : Nat)
+    (hsh : ∀ s, os = some s → s = sh) (rest : List RawTarget) (ρ : List Nat)
+    (hd : ∀ e ∈ rest, ¬ rawSame sharded (n, os) e) :
+    canonTarget sharded (n, sh) ∉ (resolveAll rest ρ).map (canonTarget sharded) := by
+  intro hmem
+  obtain ⟨x, hx, heq⟩ := List.mem_map.mp hmem
+  obtain ⟨e, he, h1, h2⟩ := mem_resolveAll rest ρ x hx
+  apply hd e he
+  have hn : x.1 = n := by
+    have := congrArg Prod.fst heq
+    simpa [canonTarget] using this
+  refine ⟨by simp [h1, hn], ?_⟩
+  by_cases hs0 : sharded n = false
+  · exact Or.inl hs0
+  · have hs : sharded n = true := by simpa using hs0
+    right
+    cases os with
+    | none => exact Or.inl rfl
+    | some s =>
+      right
+      cases hes : e.2 with
+      | none => exact Or.inl rfl
+      | some s' =>
+        right
+        have h3 := h2 s' hes
+        have h4 := hsh s rfl
+        have := congrArg Prod.snd heq
+        simp only [canonTarget, hn, hs, ↓reduceIte] at this
+        simp [h3, h4, this]
+
+/-- Whatever shards are drawn for the shard-less entries, a plan whose raw entries are pairwise different targets is
+duplicate-free as a list of targets. -/
+theorem resolved_nodup (sharded : Nat → Bool) (raw : List RawTarget) (ρ : List Nat)
+    (h : raw.Pairwise (fun a b => ¬ rawSame sharded a b)) :
+    ((resolveAll raw ρ).map (canonTarget sharded)).Nodup := by
+  induction raw generalizing ρ with
+  | nil => simp [resolveAll]
+  | cons e rest ih =>
+    obtain ⟨n, os⟩ := e
+    simp only [List.pairwise_cons] at h
+    cases os with
+    | some s =>
+      simp only [resolveAll, List.map_cons, List.nodup_cons]
+      exact ⟨resolved_head_fresh sharded n (some s) s (by intro s' h'; simpa using h'.symm) rest ρ h.1, ih ρ h.2⟩
+    | none =>
+      cases ρ with
+      | nil =>
+        simp only [resolveAll, List.map_cons, List.nodup_cons]
+        exact ⟨resolved_head_fresh sharded n none 0 (by intro s' h'; cases h') rest [] h.1, ih [] h.2⟩
+      | cons r ρ' =>
+        simp only [resolveAll, List.map_cons, List.nodup_cons]
+        exact ⟨resolved_head_fresh sharded n none r (by intro s' h'; cases h') rest ρ' h.1, ih ρ' h.2⟩
+
+/-- **The plan of a policy satisfying `PolicyDistinct` has no two entries that are the same target** (for every
+random shard assignment). -/
+theorem lbPlan_nodup (sharded : Nat → Bool) (pick : Option RawTarget) (fallback : List RawTarget) (ρ : List Nat)
+    (h : PolicyDistinct sharded pick fallback) :
+    ((resolveAll (lbRaw pick fallback) ρ).map (canonTarget sharded)).Nodup :=
+  resolved_nodup sharded _ ρ (lbRaw_pairwise sharded pick fallback h)
+
+/-- The single-target policy satisfies the hypothesis (its fallback is empty) … -/
+theorem singleTarget_distinct (sharded : Nat → Bool) (found : Bool) (node : Nat) (shard : Option Nat) :
+    PolicyDistinct sharded (singleTargetPick found node shard) singleTargetFallback :=
+  ⟨by simp [singleTargetFallback], by intro p _ f hf; simp [singleTargetFallback] at hf⟩
+
+/-- … its plan is the one configured target, or empty when the node is unknown … -/
+theorem singleTarget_plan (found : Bool) (node : Nat) (shard : Option Nat) :
+    lbRaw (singleTargetPick found node shard) singleTargetFallback = if found then [(node, shard)] else [] := by
+  cases found <;> simp [lbRaw, singleTargetPick, singleTargetFallback]
+
+/-- … so a request routed by it (paged or not) never has two executions on the same target: the second execution
+finds the plan exhausted. -/
+theorem distinct_targets_single_target (sharded : Nat → Bool) (found : Bool) (node : Nat) (shard : Option Nat)
+    (ρ : List Nat) (coord : Option (Nat × Option Nat))
+    (hcoord : ∀ cn cs, coord = some (cn, cs) → (cs = none ↔ sharded cn = false))
+    (idem : Bool) (pol : Option Nat) (dl : Option Nat) (evs : List (Event α)) :
+    (((run (init idem pol dl
+        (pagerPlan coord (resolveAll (lbRaw (singleTargetPick found node shard) singleTargetFallback) ρ)) :
+          St α PlanTarget) evs).handed.map (·.2)).map (canonTarget sharded)).Nodup :=
+  distinct_targets_up_to _ idem pol dl _
+    (pagerPlan_nodup_of_targets sharded coord _
+      (lbPlan_nodup sharded _ _ ρ (singleTarget_distinct sharded found node shard)) hcoord) evs
+
+/-- For any policy satisfying the hypothesis, paged (`coord`) or not (`coord = none`). -/
+theorem distinct_targets_of_policy (sharded : Nat → Bool) (pick : Option RawTarget) (fallback : List RawTarget)
+    (ρ : List Nat) (h : PolicyDistinct sharded pick fallback) (coord : Option (Nat × Option Nat))
+    (hcoord : ∀ cn cs, coord = some (cn, cs) → (cs = none ↔ sharded cn = false))
+    (idem : Bool) (pol : Option Nat) (dl : Option Nat) (evs : List (Event α)) :
+    (((run (init idem pol dl (pagerPlan coord (resolveAll (lbRaw pick fallback) ρ)) : St α PlanTarget) evs).handed.map
+      (·.2)).map (canonTarget sharded)).Nodup :=
+  distinct_targets_up_to _ idem pol dl _
+    (pagerPlan_nodup_of_targets sharded coord _ (lbPlan_nodup sharded pick fallback ρ h) hcoord) evs
+
+/-- The default policy names every node at most once (C05 `plan_nodup`); that is (more than) target-distinctness. -/
+theorem nodup_targets_of_nodes (sharded : Nat → Bool) (l : List PlanTarget) (hl : (l.map (·.1)).Nodup) :
+    (l.map (canonTarget sharded)).Nodup := by
+  unfold List.Nodup at hl ⊢
+  rw [List.pairwise_map] at hl ⊢
+  exact hl.imp (fun hne heq => hne (by rw [← canon_fst sharded, heq, canon_fst]))
+
+-- the hypothesis is needed, and exact equality is not enough: a fallback that re-emits the picked node without a
+-- shard is not filtered by `Plan` (the entries differ as values) and puts the node into the plan twice
+example : lbRaw (some (5, some 1)) [(5, none)] = [(5, some 1), (5, none)] := by decide
+example : resolveAll (lbRaw (some (5, some 1)) [(5, none)]) [1] = [(5, 1), (5, 1)] := by decide
+example : ¬ PolicyDistinct (fun _ => true) (some (5, some 1)) [(5, none)] := by
+  intro h
+  exact h.pick_distinct (5, some 1) rfl (5, none) (by simp) (by decide) ⟨rfl, Or.inr (Or.inr (Or.inl rfl))⟩
+-- an exact copy of the picked entry is skipped
+example : lbRaw (some (5, some 1)) [(5, some 1), (6, none)] = [(5, some 1), (6, none)] := by decide
 
 private theorem inj_of_nodup_map {β γ : Type} (f : β → γ) :
     ∀ {l : List β}, (l.map f).Nodup → ∀ a ∈ l, ∀ b ∈ l, f a = f b → a = b
